@@ -6,43 +6,89 @@ Transcription of
 * `nfc.llcp.tco.TransmissionControlObject.dequeue`, `RawAccessPoint.dequeue`,
   `LogicalDataLink.dequeue`, `DataLinkConnection.dequeue` / `sendack`,
 * `nfc.llcp.llc.ServiceAccessPoint.dequeue` / `sendack`, `ServiceDiscovery.dequeue`,
-* `nfc.llcp.llc.LogicalLinkController.collect`
-at the level of PDU sizes: a queued PDU is `(kind, header size, total length, id)`.
-`Pdu.len` of an aggregate and of an SNL PDU follow `pdu.py`
+* `nfc.llcp.llc.LogicalLinkController.collect` including the `encrypt()` step of secure data
+  transfer (`self.sec`, `icv_size`),
+at the level of PDU sizes: a queued PDU is `(kind, header size, total length, id, icv, lim)`.
+`len` of an aggregate and of an SNL PDU follow `pdu.py`
 (`2 + Σ (2 + len sub)`, `2 + 4·|sdres| + Σ (3 + |name|)`).
+
+The cipher is abstract: `sec = some n` stands for a cipher suite whose `encrypt(a, p)` returns
+`len(p) + n` octets and whose `icv_size` is `n` (`CipherSuite1`: n = 4); `sec = none` is
+`llc.sec is None`.
 -/
 namespace NfcVerif.Collect
 
-inductive Kind | ui | i | rr | dm | frmr | snl | other
+/-- the PDU types of `pdu.py` (`other`: an unknown PTYPE, raw access points only) -/
+inductive Kind | symm | pax | agf | ui | connect | disc | cc | dm | frmr | snl | dps | i | rr | rnr | other
   deriving DecidableEq, Repr
 
 structure QPdu where
   kind : Kind
   hdr : Nat      -- `header_size` (2, or 3 for numbered PDUs)
   len : Nat      -- `len(pdu)`
-  id : Nat       -- identity for the correspondence (payload marker)
+  id : Nat       -- identity for the correspondence (payload marker / N(R) / addresses)
+  icv : Nat      -- octets appended by `encrypt()` so far (0 for a plaintext PDU)
+  lim : Nat      -- ghost: the MIU the payload was checked against by `sendto()` / `send()` (0: none)
   deriving DecidableEq, Repr
 
+/-- size of the information field, `len(pdu) - pdu.header_size` -/
 def QPdu.info (p : QPdu) : Nat := p.len - p.hdr
 
-def rrPdu (id : Nat) : QPdu := ⟨.rr, 3, 3, id⟩
+/-- size of the service data unit (the information field without the ICV) -/
+def QPdu.payload (p : QPdu) : Nat := p.len - p.hdr - p.icv
 
-/-- `TransmissionControlObject.dequeue(miu_size, icv_size)`; `miu = none` skips the size check -/
+/-- `RR_PDU` / `RNR_PDU` `(self.peer, self.addr, self.recv_ack)` -/
+def ackPdu (busy : Bool) (nr : Nat) : QPdu := ⟨if busy then .rnr else .rr, 3, 3, nr, 0, 0⟩
+
+/-- `pdu.ServiceNameLookup(dsap=1, ssap=1)` with `len` octets in total -/
+def snlPdu (len : Nat) : QPdu := ⟨.snl, 2, len, 65, 0, 0⟩
+
+/-- `self.sec.icv_size if self.sec else 0` -/
+def icvOf : Option Nat → Nat
+  | none => 0
+  | some n => n
+
+/-- `if self.sec and send_pdu.name in ("UI", "I"): send_pdu = encrypt(send_pdu)`:
+the same header, the data grown by the ICV -/
+def QPdu.encrypt (sec : Option Nat) (p : QPdu) : QPdu :=
+  match sec with
+  | none => p
+  | some n => if p.kind = .ui ∨ p.kind = .i then { p with len := p.len + n, icv := p.icv + n } else p
+
+/-- `pdu_size` of `TransmissionControlObject.dequeue(miu_size, icv_size)` -/
 def QPdu.size (p : QPdu) (icv : Nat) : Nat :=
   if p.kind = .ui ∨ p.kind = .i then p.len + icv else p.len
 
+/-- `TransmissionControlObject.dequeue(miu_size, icv_size)`; `miu = none` skips the size check -/
 def tcoDequeue : List QPdu → Option Int → Nat → Option QPdu × List QPdu
   | [], _, _ => (none, [])
   | p :: rest, none, _ => (some p, rest)
   | p :: rest, some m, icv =>
     if ((p.size icv : Int) - (p.hdr : Int)) > m then (none, p :: rest) else (some p, rest)
 
+/-- `TransmissionControlObject.State` -/
+inductive DlcState | shutdown | closed | listen | connect | established | disconnect | closeWait
+  deriving DecidableEq, Repr
+
+/-- the attributes of a `DataLinkConnection` that `dequeue` / `sendack` / `send` read or write -/
+structure Dlc where
+  state : DlcState
+  busy : Bool        -- mode.RECV_BUSY
+  busySent : Bool    -- mode.RECV_BUSY_SENT
+  rw : Nat           -- RW(L)  recv_win
+  cnt : Nat          -- V(R)   recv_cnt
+  ack : Nat          -- V(RA)  recv_ack
+  confs : Nat        -- recv_confs
+  sendMiu : Nat      -- send_miu (connection MIU)
+  sendWin : Nat      -- RW(R)  send_win
+  sendCnt : Nat      -- V(S)   send_cnt
+  sendAck : Nat      -- V(SA)  send_ack
+  deriving DecidableEq, Repr
+
 inductive Sock
   | raw (q : List QPdu)
-  | ldl (q : List QPdu)
-  /-- `established`: state ESTABLISHED; `busy`/`busySent`: mode.RECV_BUSY / RECV_BUSY_SENT;
-      `rw cnt ack confs`: RW(L), V(R), V(RA), recv_confs -/
-  | dlc (established busy busySent : Bool) (rw cnt ack confs : Nat) (q : List QPdu)
+  | ldl (sendMiu : Nat) (q : List QPdu)
+  | dlc (d : Dlc) (q : List QPdu)
   deriving Repr
 
 /-- `recv_window_slots`: (RW(L) - V(R) + V(RA)) mod 16 -/
@@ -52,30 +98,32 @@ def slots (rw cnt ack : Nat) : Nat := (rw + 16 - cnt % 16 + ack) % 16
 def Sock.dequeue (s : Sock) (miu : Int) (icv : Nat) : Option QPdu × Sock :=
   match s with
   | .raw q => let r := tcoDequeue q none 0; (r.1, .raw r.2)
-  | .ldl q => let r := tcoDequeue q (some miu) icv; (r.1, .ldl r.2)
-  | .dlc est busy busySent rw cnt ack confs q =>
-    if est ∧ busySent ≠ busy then (some (rrPdu 0), .dlc est busy busy rw cnt ack confs q)
+  | .ldl m q => let r := tcoDequeue q (some miu) icv; (r.1, .ldl m r.2)
+  | .dlc d q =>
+    if d.state = .established ∧ d.busySent ≠ d.busy then
+      (some (ackPdu d.busy d.ack), .dlc { d with busySent := d.busy } q)
     else
       let r := tcoDequeue q (some miu) icv
       match r.1 with
       | none =>
         -- "necessary ack": nothing to send but the receive window is exhausted
-        if est ∧ confs ≠ 0 ∧ slots rw cnt ack = 0 then
-          (some (rrPdu 0), .dlc est busy busySent rw cnt ((ack + confs) % 16) 0 r.2)
-        else (none, .dlc est busy busySent rw cnt ack confs r.2)
+        if d.state = .established ∧ d.confs ≠ 0 ∧ slots d.rw d.cnt d.ack = 0 then
+          (some (ackPdu d.busy ((d.ack + d.confs) % 16)),
+           .dlc { d with ack := (d.ack + d.confs) % 16, confs := 0 } r.2)
+        else (none, .dlc d r.2)
       | some p =>
-        if p.kind = .frmr then (some p, .dlc false busy busySent rw cnt ack confs [])   -- SHUTDOWN, close()
-        else if p.kind = .i ∧ est then
+        if p.kind = .frmr then (some p, .dlc { d with state := .shutdown } [])   -- SHUTDOWN, close()
+        else if p.kind = .i ∧ d.state = .established ∧ d.confs ≠ 0 ∧ d.cnt ≠ d.ack then
           -- piggy-backed acknowledgement
-          if confs ≠ 0 ∧ cnt ≠ ack then (some p, .dlc est busy busySent rw cnt ((ack + confs) % 16) 0 r.2)
-          else (some p, .dlc est busy busySent rw cnt ack confs r.2)
-        else (some p, .dlc est busy busySent rw cnt ack confs r.2)
+          (some p, .dlc { d with ack := (d.ack + d.confs) % 16, confs := 0 } r.2)
+        else (some p, .dlc d r.2)
 
 /-- `DataLinkConnection.sendack()`; other socket types have no voluntary ack -/
 def Sock.sendack (s : Sock) : Option QPdu × Sock :=
   match s with
-  | .dlc est busy busySent rw cnt ack confs q =>
-    if est ∧ confs ≠ 0 ∧ cnt ≠ ack then (some (rrPdu 0), .dlc est busy busySent rw cnt ((ack + confs) % 16) 0 q)
+  | .dlc d q =>
+    if d.state = .established ∧ d.confs ≠ 0 ∧ d.cnt ≠ d.ack then
+      (some (ackPdu d.busy ((d.ack + d.confs) % 16)), .dlc { d with ack := (d.ack + d.confs) % 16, confs := 0 } q)
     else (none, s)
   | _ => (none, s)
 
@@ -90,8 +138,8 @@ def Sap.mode (s : Sap) : Mode :=
   match s.socks with
   | [] => .none
   | .raw _ :: _ => .raw
-  | .ldl _ :: _ => .ldl
-  | .dlc .. :: _ => .dlc
+  | .ldl _ _ :: _ => .ldl
+  | .dlc _ _ :: _ => .dlc
 
 /-- `for socket in self.sock_list: p = socket.dequeue(..); if p: return p` -/
 def socksDequeue : List Sock → Int → Nat → Option QPdu × List Sock
@@ -124,7 +172,8 @@ def Sap.sendack (s : Sap) : Option QPdu × Sap :=
   let r := socksSendack s.socks
   (r.1, { s with socks := r.2 })
 
-/-- state of `ServiceDiscovery`: pending answers, pending requests (tid, name length), DM PDUs -/
+/-- state of `ServiceDiscovery`: pending answers (tid * 256 + sap), pending requests
+(tid, name length), DM PDUs -/
 structure Sd where
   sdres : List Nat
   sdreq : List (Nat × Nat)
@@ -149,7 +198,7 @@ def Sd.dequeue (s : Sd) (miu : Int) : Option QPdu × Sd :=
   if s.sdres ≠ [] ∨ s.sdreq ≠ [] then
     let r := takeSdres s.sdres miu 0
     let q := takeSdreq s.sdreq.length s.sdreq r.2.2 0
-    (some ⟨.snl, 2, 2 + 4 * r.1 + q.1, 0⟩, { s with sdres := r.2.1, sdreq := q.2.1 })
+    (some (snlPdu (2 + 4 * r.1 + q.1)), { s with sdres := r.2.1, sdreq := q.2.1 })
   else
     match s.dmpdu with
     | p :: rest => if miu > 0 then (some p, { s with dmpdu := rest }) else (none, s)
@@ -176,7 +225,8 @@ def Ent.sendack (e : Ent) : Option QPdu × Ent :=
   | .sd _ => (none, e)
 
 /-- first loop of `collect`: visit the entries in the given order of positions (raw SAPs
-first) until one returns a PDU; entries stay at their address position -/
+first) until one returns a PDU; entries stay at their address position.  The sockets are asked
+with `icv_size=0` -/
 def firstDequeue (miu : Int) : List Nat → List Ent → Option QPdu × List Ent
   | [], es => (none, es)
   | i :: order, es =>
@@ -205,32 +255,33 @@ def agfLen (subs : List QPdu) : Nat := 2 + (subs.map (fun p => 2 + p.len)).sum
 def budget (sendMiu : Nat) (subs : List QPdu) : Int := (sendMiu : Int) - (agfLen subs : Int) - 3
 
 /-- one pass of the inner `for sap in filter(None, self.sap)` loop of the aggregation;
-returns (entries, aggregate, nothing dequeued?) and stops as soon as the budget is negative -/
-def aggPass (sendMiu icv : Nat) : List Ent → List QPdu → Bool → List Ent × List QPdu × Bool
+returns (entries, aggregate, nothing dequeued?) and stops as soon as the budget is negative.
+A dequeued UI / I PDU is encrypted AFTER the size check of `dequeue` and then appended -/
+def aggPass (sendMiu : Nat) (sec : Option Nat) : List Ent → List QPdu → Bool → List Ent × List QPdu × Bool
   | [], subs, none_ => ([], subs, none_)
   | e :: rest, subs, none_ =>
-    let r := e.dequeue (budget sendMiu subs) icv
+    let r := e.dequeue (budget sendMiu subs) (icvOf sec)
     match r.1 with
     | some p =>
-      let subs' := subs ++ [p]
+      let subs' := subs ++ [p.encrypt sec]
       if budget sendMiu subs' < 0 then (r.2 :: rest, subs', false)
       else
-        let r' := aggPass sendMiu icv rest subs' false
+        let r' := aggPass sendMiu sec rest subs' false
         (r.2 :: r'.1, r'.2.1, r'.2.2)
     | none =>
-      let r' := aggPass sendMiu icv rest subs none_
+      let r' := aggPass sendMiu sec rest subs none_
       (r.2 :: r'.1, r'.2.1, r'.2.2)
 
 /-- `while miu_size >= 0:` ... repeated passes; `fuel` bounds the number of passes (every
-productive pass removes a PDU from some queue) -/
-def aggLoop (sendMiu icv : Nat) : Nat → List Ent → List QPdu → List Ent × List QPdu
+productive pass appends a PDU to the aggregate, see `Lemmas.Collect.aggLoop_fuel`) -/
+def aggLoop (sendMiu : Nat) (sec : Option Nat) : Nat → List Ent → List QPdu → List Ent × List QPdu
   | 0, es, subs => (es, subs)
   | fuel + 1, es, subs =>
     if budget sendMiu subs < 0 then (es, subs)
     else
-      let r := aggPass sendMiu icv es subs true
+      let r := aggPass sendMiu sec es subs true
       if budget sendMiu r.2.1 < 0 ∨ r.2.2 then (r.1, r.2.1)
-      else aggLoop sendMiu icv fuel r.1 r.2.1
+      else aggLoop sendMiu sec fuel r.1 r.2.1
 
 /-- voluntary acknowledgements appended while the budget lasts -/
 def aggAcks (sendMiu : Nat) : List Ent → List QPdu → List Ent × List QPdu
@@ -256,10 +307,15 @@ def Frame.info : Frame → Nat
   | .single p => p.info
   | .agf subs => agfLen subs - 2
 
+/-- the PDUs the receiver dispatches -/
+def Frame.pdus : Frame → List QPdu
+  | .single p => [p]
+  | .agf subs => subs
+
 /-- number of queued PDUs (an upper bound for the number of productive passes) -/
 def Sock.size : Sock → Nat
-  | .raw q | .ldl q => q.length
-  | .dlc _ _ _ _ _ _ _ q => q.length + 2
+  | .raw q | .ldl _ q => q.length
+  | .dlc _ q => q.length + 2
 def Ent.size : Ent → Nat
   | .sap s => (s.socks.map Sock.size).sum + s.sendList.length
   | .sd s => s.sdres.length + s.sdreq.length + s.dmpdu.length + 1
@@ -273,26 +329,28 @@ def rawFirst (es : List Ent) : List Nat :=
   idx.filter (fun i => match es[i]? with | some e => ¬ (e.mode = .raw ∨ e.mode = .none) | none => false)
 
 /-- the part of `collect` after the first PDU `p` is known (aggregation enabled) -/
-def aggregate (es : List Ent) (sendMiu icv : Nat) (p : QPdu) : Option Frame × List Ent :=
-  -- every pass that does not end the loop appends at least one PDU (>= 4 octets of the aggregate)
+def aggregate (es : List Ent) (sendMiu : Nat) (sec : Option Nat) (p : QPdu) : Option Frame × List Ent :=
+  -- every pass that does not end the loop appends at least one PDU (>= 2 octets of the aggregate)
   let fuel := sendMiu + 1
-  let l := aggLoop sendMiu icv fuel es [p]
+  let l := aggLoop sendMiu sec fuel es [p]
   let a := if budget sendMiu l.2 ≥ 0 then aggAcks sendMiu l.1 l.2 else l
   (some (if a.2.length > 1 then .agf a.2 else .single p), a.1)
 
-/-- `LogicalLinkController.collect()` for `sec = None` -/
-def collect (es : List Ent) (sendMiu icv : Nat) (agf : Bool) : Option Frame × List Ent :=
+/-- `LogicalLinkController.collect()`: `sec = none` for `self.sec is None`, `some n` for a cipher
+suite with `icv_size == n` -/
+def collect (es : List Ent) (sendMiu : Nat) (sec : Option Nat) (agf : Bool) : Option Frame × List Ent :=
   let first := firstDequeue sendMiu (rawFirst es) es
   match first.1 with
-  | some p =>
+  | some p0 =>
+    let p := p0.encrypt sec
     if (p.info : Int) ≥ sendMiu then (some (.single p), first.2)
     else if ¬ agf then (some (.single p), first.2)
-    else aggregate first.2 sendMiu icv p
+    else aggregate first.2 sendMiu sec p
   | none =>
     let k := firstSendack first.2
     match k.1 with
     | none => (none, k.2)
-    | some p => if ¬ agf then (some (.single p), k.2) else aggregate k.2 sendMiu icv p
+    | some p => if ¬ agf then (some (.single p), k.2) else aggregate k.2 sendMiu sec p
 
 
 /-- the size test of `LogicalDataLink.sendto` (against the link MIU) and of
